@@ -1064,6 +1064,12 @@ fn c03(cx: &Ctx, o: &mut Outcome) {
                     }
                 }
             },
+            (RangeClass::InFile(_), 200) if rq.header("If-Range").is_some() => {
+                // RFC 9110 13.1.5: a validator that does not match turns the request into a plain GET
+                if resp.body != file {
+                    o.verdicts.push(v("C03", "if_range.200_not_whole_file", format!("{} If-Range: {:?}: answered 200 with {} bytes that are not the whole file", ctx_txt, rq.header("If-Range"), resp.body.len()), Some(i)));
+                }
+            }
             (RangeClass::InFile(_), code) => {
                 o.verdicts.push(v("C03", format!("in_file.status_{}", code), format!("{}: all ranges lie inside the file, expected 206, got {}", ctx_txt, code), Some(i)));
             }
